@@ -254,6 +254,21 @@ pub fn run(rep: &mut Report, driver: &str, workers: usize, thorough: bool, seed:
         }
         idx = next;
     }
+    // 4b. large collections: every element converts / the only failing element is the first, a middle or the last one
+    for n in [25usize, 100, 1000] {
+        for bad in [usize::MAX, 0, n / 2, n - 1] {
+            let xs: Vec<Value> = (0..n).map(|i| if i == bad { Value::Int(70000) } else { Value::Int((i % 200) as i128) }).collect();
+            for k in ["vec:u8", "vec:i16", "vec:u64"] {
+                let v = Value::Vec(xs.clone());
+                cases.push(Case { op: format!("try:{}", k), arg: enc_value(&v), impl_out: impl_try(&format!("try:{}", k), v), expect: None, tag: "vec-large" });
+            }
+            let m: BTreeMap<String, Value> = xs.iter().enumerate().map(|(i, x)| (format!("k{:04}", (i * 7 + 3) % n), x.clone())).collect();
+            for k in ["map:u8", "hmap:u8", "map:i16", "mapvalue", "hmapvalue"] {
+                let v = Value::Map(m.clone());
+                cases.push(Case { op: format!("try:{}", k), arg: enc_value(&v), impl_out: impl_try(&format!("try:{}", k), v), expect: None, tag: "map-large" });
+            }
+        }
+    }
     // 5. f32 -> Value (exact widening): specials and random bit patterns
     let mut f32s: Vec<u32> = vec![0, 0x8000_0000, 1, 0x007f_ffff, 0x0080_0000, 0x7f7f_ffff, 0x7f80_0000, 0xff80_0000, 0x7fc0_0000, 0x3f80_0000, 0x3dcc_cccd, 0x0000_0100, 0x8000_0001];
     for _ in 0..(if thorough { 200000 } else { 20000 }) {
@@ -291,7 +306,7 @@ pub fn run(rep: &mut Report, driver: &str, workers: usize, thorough: bool, seed:
     let replies = par_batch(driver, workers, &reqs);
     let mut sr = StreamReport::new(
         "conversions",
-        "TryFrom<Value> for each of the 10 integer types over every integer in [-70000, 70000] (8/16-bit targets), every width boundary +-2 and random i128; From->TryFrom round trips (all 8/16-bit values, boundaries for wider types incl. usize); every boundary-pool Value as the source of 25 extractions; lists/maps of length <= 3 (thorough 4) over 7 element kinds with a non-convertible element at each position (BTreeMap and HashMap targets); f32 specials and random bit patterns; Option/Vec/Map into Value; From<T> -> TryFrom<Value> round trips of every scalar kind (f64 bit patterns, strings incl. &str, decimals at every scale, booleans, date-times and durations down to the nanosecond incl. the extremes) alone and inside Vec / BTreeMap / HashMap. Predicates on the real code: in range <=> Ok(same number) else NumericOverflow; wrong kind => UnexpectedValueType carrying the value; round trips return the original",
+        "TryFrom<Value> for each of the 10 integer types over every integer in [-70000, 70000] (8/16-bit targets), every width boundary +-2 and random i128; From->TryFrom round trips (all 8/16-bit values, boundaries for wider types incl. usize); every boundary-pool Value as the source of 25 extractions; lists/maps of length <= 3 (thorough 4) over 7 element kinds with a non-convertible element at each position (BTreeMap and HashMap targets); lists / maps of 25 / 100 / 1000 elements with no failing element or the first / a middle / the last one failing; f32 specials and random bit patterns; Option/Vec/Map into Value; From<T> -> TryFrom<Value> round trips of every scalar kind (f64 bit patterns, strings incl. &str, decimals at every scale, booleans, date-times and durations down to the nanosecond incl. the extremes) alone and inside Vec / BTreeMap / HashMap. Predicates on the real code: in range <=> Ok(same number) else NumericOverflow; wrong kind => UnexpectedValueType carrying the value; round trips return the original",
         false,
     );
     for (c, m) in cases.iter().zip(replies.iter()) {
